@@ -80,6 +80,21 @@ def order_flags(m0: bool, m1: bool, m2: bool, d0: bool, d1: bool, d2: bool,
     return H.done(a == b)
 
 
+def order_2pos(a01: bool, a02: bool, a10: bool, a12: bool, a20: bool, a21: bool,
+               b01: bool, b02: bool, b10: bool, b12: bool, b20: bool, b21: bool, d2: bool, p: int) -> bool:
+    """
+    pre: 0 <= p < 6 and (SHARD_P is None or p == SHARD_P)
+    pre: X.strict_po(X.mat3(a01, a02, a10, a12, a20, a21)) and X.strict_po(X.mat3(b01, b02, b10, b12, b20, b21))
+    pre: H.fresh(a01, a02, a10, a12, a20, a21, b01, b02, b10, b12, b20, b21, d2, p)
+    post: _
+    """
+    S = [X.mat3(a01, a02, a10, a12, a20, a21), X.mat3(b01, b02, b10, b12, b20, b21)]
+    fam = (3, 2, S, [True, True, True], [True, True, d2], [[False, False]] * 3, [False] * 3, [0, 0, 0])
+    x, _ = X.run(*fam, X.PERMS3[p], False)
+    y, _ = X.run(*fam, X.PERMS3[0], False)
+    return H.done(x == y)
+
+
 def fam1(s01, s02, s10, s12, s20, s21, m0, m1, m2, d0, d1, d2, z0, z1, z2, k0, k1, k2, recv):
     npos = 2 if recv else 1      # with a receiver there is one more position (the receiver itself)
     z = [z0, z1, z2]
@@ -113,11 +128,29 @@ def conditions(tier, seed):
                             'bounds': '3 candidates in layers %s, enumeration order %s vs identity, no specialization, '
                                       'symbolic map_args/get_delegate/lazy-position/no_kwargs answers' % (
                                           layers, X.PERMS3[p])})
+    for p in ([3] if tier == 'quick' else [1, 2, 3, 4, 5]):
+        out.append({'name': 'order_2pos[perm=%d]' % p, 'func': 'order_2pos', 'timeout': 2 * t, 'param': {'perm': p},
+                    'bounds': '3 matching candidates in one layer, 2 argument positions with independent symbolic strict '
+                              'partial orders, enumeration order %s vs identity' % X.PERMS3[p]})
     return out
 
 
 def replay(cond, args):
     a = dict(args)
+    if cond['func'] == 'order_2pos':
+        S = [X.mat3(a['a01'], a['a02'], a['a10'], a['a12'], a['a20'], a['a21']),
+             X.mat3(a['b01'], a['b02'], a['b10'], a['b12'], a['b20'], a['b21'])]
+        fam = (3, 2, S, [True, True, True], [True, True, a['d2']], [[False, False]] * 3, [False] * 3, [0, 0, 0])
+        o1, _ = X.run(*fam, X.PERMS3[a['p']], False)
+        o2, _ = X.run(*fam, X.PERMS3[0], False)
+        if o1 == o2:
+            return {'reproduced': False, 'note': 'stub level agrees on CPython'}
+        c1, desc = X.build_real(*fam, X.PERMS3[a['p']], False)
+        c2, _ = X.build_real(*fam, X.PERMS3[0], False)
+        r1, r2 = c1(), c2()
+        return {'reproduced': r1 != r2, 'key': 'C06/winner-depends-on-enumeration-order',
+                'what': 'overloads %s: enumeration order %s gives %r, order %s gives %r' % (
+                    '; '.join(desc), X.PERMS3[a['p']], r1, X.PERMS3[0], r2)}
     recv = a['recv']
     p = a.pop('p')
     for k in ('s01', 's02', 's10', 's12', 's20', 's21', 'z0', 'z1', 'z2', 'k0', 'k1', 'k2'):
